@@ -529,12 +529,7 @@ func (P *Prog) solveAll(obls []*Obligation, opts *VerifyOpts) {
 		wg.Add(1)
 		go func(o *Obligation) {
 			defer wg.Done()
-			sliced, _ := o.vc.slicedQuery(o.Mark, o.Goal)
-			o.Res = solve(sliced, opts.OutDir, o.Name+".slice", 3, "z3")
-			if o.Res.Status != "unsat" {
-				script := o.vc.query(o.Mark, nil, o.Goal, false)
-				o.Res = solve(script, opts.OutDir, o.Name, opts.Timeout, opts.Solvers)
-			}
+			o.Res = solveObligation(o, opts.OutDir, opts.Timeout)
 		}(o)
 	}
 	wg.Wait()
@@ -1004,4 +999,33 @@ func (P *Prog) saveHints(path string) {
 	}
 	data, _ := json.MarshalIndent(m, "", " ")
 	os.WriteFile(path, data, 0o644)
+}
+
+
+// solveObligation runs the staged pipeline on one obligation:
+//  1. heap-sliced VC with engine-side instantiation (fast path),
+//  2. full VC with engine-side instantiation,
+//  3. full VC as is, whole portfolio.
+// Every stage only drops or instantiates hypotheses, so "unsat" at any stage
+// is a proof of the obligation; "sat" is only believed from stage 3.
+func solveObligation(o *Obligation, outDir string, timeout int) SolveResult {
+	q1, _ := o.vc.instantiatedQuery(o.Mark, o.Goal, true)
+	r := solve(q1, outDir, o.Name+".s1", 4, "z3,z3-new")
+	spent := r.Time
+	if r.Status == "unsat" {
+		return r
+	}
+	q2, n := o.vc.instantiatedQuery(o.Mark, o.Goal, false)
+	if n > 0 {
+		r2 := solve(q2, outDir, o.Name+".s2", timeout, "z3,z3-new")
+		spent += r2.Time
+		if r2.Status == "unsat" {
+			r2.Time = spent
+			r2.Solver += "+inst"
+			return r2
+		}
+	}
+	r3 := solve(o.vc.query(o.Mark, nil, o.Goal, false), outDir, o.Name, timeout, "")
+	r3.Time += spent
+	return r3
 }
